@@ -269,17 +269,33 @@ func c07aJob(raw json.RawMessage) (any, error) {
 // (c) quiescent router, concurrent requests
 
 type c07cItem struct {
+	Shape   int        `json:"shape"` // 0 = three routes; 1 = reached through a history with >=6 literal siblings and removals
 	Lock    bool       `json:"lock"`
 	Threads [][]hv.Req `json:"threads"`
 	Bound   int        `json:"bound"`
 	Only    []int      `json:"only,omitempty"`
 }
 
-func quiescentRouter(lock bool) *Router {
+func quiescentRouter(lock bool, shape int) *Router {
 	r := NewRouter(RouterCfg{Lock: lock})
 	r.Handle("/u/{id}", hv.Route("hU"), nil, "GET")
 	r.Handle(`/u/{id}/p/{n:\d+}`, hv.Route("hUP"), nil, "GET")
 	r.Handle("/s", hv.Route("hS"), nil, "GET")
+	if shape == 1 {
+		// a router that is "no longer being modified" but was: index blocks, removals, a re-registration, a Clean of a prefix
+		for _, c := range "abcdefg" {
+			r.Handle("/x/"+string(c), hv.Route("hX"+string(c)), nil, "GET")
+			r.Handle("/u/{id}/"+string(c), hv.Route("hUc"+string(c)), nil, "GET")
+		}
+		r.Handle("/x/{id}", hv.Route("hXid"), nil, "GET")
+		r.Remove("/x/a")
+		r.Remove("/u/{id}/b")
+		r.Remove("/s")
+		r.Handle("/s", hv.Route("hS"), nil, "GET")
+		r.Handle("/y/a", hv.Route("hY"), nil, "GET")
+		r.Prefix("/y").Clean()
+		r.Use(hv.MW{Name: "A"})
+	}
 	return r
 }
 
@@ -308,9 +324,9 @@ func c07cJob(raw json.RawMessage) (any, error) {
 		}
 		names = append(names, strings.Join(s, ";"))
 	}
-	name := fmt.Sprintf("lock=%v: %s", it.Lock, strings.Join(names, " || "))
+	name := fmt.Sprintf("shape=%d lock=%v: %s", it.Shape, it.Lock, strings.Join(names, " || "))
 	// expected: each request alone on an identical router
-	soloR := quiescentRouter(it.Lock)
+	soloR := quiescentRouter(it.Lock, it.Shape)
 	want := make([][]string, n)
 	for t, qs := range it.Threads {
 		for _, q := range qs {
@@ -320,7 +336,7 @@ func c07cJob(raw json.RawMessage) (any, error) {
 	run := func(s *explore.Sched) explore.ExecResult {
 		var raceViols []explore.Violation
 		res0 := func() explore.ExecResult {
-			r := quiescentRouter(it.Lock)
+			r := quiescentRouter(it.Lock, it.Shape)
 			types.VerifDrainPool()
 			obs := make([][]*hv.Obs, n)
 			bodies := make([]func(), n)
@@ -558,6 +574,13 @@ func init() {
 			}
 			for _, tr := range [][]hv.Req{{reqs[0], reqs[1], reqs[2]}, {reqs[0], reqs[1], reqs[3]}, {reqs[1], reqs[5], reqs[4]}, {reqs[0], reqs[0], reqs[1]}} {
 				citems = append(citems, c07cItem{Lock: lock, Threads: [][]hv.Req{{tr[0]}, {tr[1]}, {tr[2]}}, Bound: bc - 1})
+			}
+			// shape 1: requests through the nodes whose children were removed / re-indexed
+			r1 := []hv.Req{{Method: "GET", Path: "/x/b"}, {Method: "GET", Path: "/x/9"}, {Method: "GET", Path: "/u/1/c"}, {Method: "GET", Path: "/u/2/b"}, {Method: "GET", Path: "/s"}, {Method: "GET", Path: "/x/a"}}
+			for i, a := range r1 {
+				for _, b := range r1[i:] {
+					citems = append(citems, c07cItem{Shape: 1, Lock: lock, Threads: [][]hv.Req{{a}, {b}}, Bound: bc - 1})
+				}
 			}
 		}
 		explore.ParMap(rc, "c07/quiescent", citems, func(i int, in c07cItem, o scenOut) {
